@@ -84,5 +84,17 @@ def _run_sorted(D: Diff) -> int:
         if canon(a) != canon(b):
             bad += 1
             D.chk.divergence("qos.run", {"request": req, "episode": m}, a, b)
+            # the search for a failing input starts at the episode on which model and implementation part: the implementation's
+            # run of it is scored by this property's own oracle (a violation found there is the replay)
+            try:
+                from . import qos_checks
+
+                ep = qos.Episode.from_json(m)
+                res = qos.run_episode(ep)
+                scorer = {"C07": qos_checks.score_c07, "C08": qos_checks.score_c08, "C09": qos_checks.score_c09}.get(D.chk.id)
+                if scorer is not None and not res.deadlock:
+                    scorer(D.chk, ep, res)
+            except Exception:  # noqa: BLE001  (the divergence itself stands)
+                pass
     D.chk.extra["model_ops_compared"] = D.chk.extra.get("model_ops_compared", 0) + len(D.reqs)
     return bad
